@@ -1,0 +1,52 @@
+//
+// Verification hooks (add-only).  Compiled in only with -DRIME_VERIF; without
+// the define every macro below expands to nothing and no symbol is emitted.
+//
+#ifndef RIME_VERIF_HOOKS_H_
+#define RIME_VERIF_HOOKS_H_
+
+#ifdef RIME_VERIF
+
+#include <atomic>
+#include <rime_api.h>
+
+namespace rime {
+namespace verif {
+
+// called at named scheduling points of the deployer / service; null = no-op.
+using YieldHook = void (*)(const char* point);
+// called around DeploymentTask::Run in Deployer::Run.
+// phase 0 = about to run, 1 = returned (result 1/0), 2 = threw std::exception.
+using TaskLogHook = void (*)(const void* task, int phase, int result);
+
+// defined in deployer.cc
+RIME_DLL extern std::atomic<YieldHook> yield_hook;
+RIME_DLL extern std::atomic<TaskLogHook> task_log_hook;
+
+}  // namespace verif
+}  // namespace rime
+
+#define RIME_VERIF_YIELD(point)                                          \
+  do {                                                                   \
+    if (auto rime_verif_h_ = ::rime::verif::yield_hook.load())           \
+      rime_verif_h_(point);                                              \
+  } while (0)
+
+#define RIME_VERIF_TASK_LOG(task, phase, result)                         \
+  do {                                                                   \
+    if (auto rime_verif_h_ = ::rime::verif::task_log_hook.load())        \
+      rime_verif_h_((task), (phase), (result));                          \
+  } while (0)
+
+#else  // RIME_VERIF
+
+#define RIME_VERIF_YIELD(point) \
+  do {                          \
+  } while (0)
+#define RIME_VERIF_TASK_LOG(task, phase, result) \
+  do {                                           \
+  } while (0)
+
+#endif  // RIME_VERIF
+
+#endif  // RIME_VERIF_HOOKS_H_
